@@ -18,6 +18,10 @@ halmos' implementation.  Core Lean only.
   transaction-wide value, so everything executed *inside* the pranked call (its nested calls too) sees the new origin, and
   the pranking frame sees its old origin again after the call returns.  (ASSUMPTION, stated in the harness: this is how
   forge implements it — `ecx.tx.caller` is replaced for the duration of the call and restored in `call_end`.)
+* "The next call" is the next CALL-family instruction or creation **whatever its target**: a contract, an account without
+  code (a plain ETH transfer to an EOA), a precompile (0x1…0xa).  Such a call is made with the pranked `msg.sender` — so the
+  value it carries is paid by the pranked address — and it uses a one-shot prank up, although no code runs.  The only
+  exception the Book makes is "calls to the cheat code address".  (`Op.call k to false` below: `enters = false`.)
 * Cheatcode endpoints — the `vm` address, the `svm` (halmos) address and `console.log`'s address — are not contracts:
   calls to them are never pranked and never consume a one-shot prank.
 * DELEGATECALL (ASSUMPTION): `msg.sender` inside a delegatecall frame is by definition the delegating frame's own
